@@ -10,7 +10,7 @@ import (
 func init() {
 	register(&PropDef{
 		ID:       "C04",
-		Patterns: []string{"./artifact/image/layerscanning/image", "./artifact/image/pathtree", "./artifact/image/whiteout", "./artifact/image/require"},
+		Patterns: []string{"./artifact/image/layerscanning/image", "./artifact/image/pathtree", "./artifact/image/whiteout", "./artifact/image/require", "./artifact/image/unpack", "./artifact/image/symlink"},
 		Explain: "Decided: D1 newest wins — a node is inserted into a chain layer's tree only when that tree has no node at the path yet, and FromV1Image walks the layers from the last to the first filling chainLayers[i:]; " +
 			"D2 hidden under a deleted or replaced ancestor — insertion happens only when the ancestor scan said 'not hidden'; the scan answers 'hidden' for a whited-out ancestor and for an ancestor that is not a directory (IsDir, so symlinks count), keeps climbing over missing ancestors and answers 'not hidden' only after reaching the root; " +
 			"D3 whiteouts invisible — ReadDir lists a child only if it is not a whiteout, Stat/Read/ReadAt/Seek of a whiteout node fail with ErrNotExist before touching the file; " +
@@ -55,6 +55,10 @@ func runC04(p *Prog, r *Report) {
 	c04EmptyIsHistory(p, r, "D1-newest-wins")
 	r.Rule("D9-mode-preserved", "a node's mode is the tar entry's full mode")
 	c04FullMode(p, r, "D9-mode-preserved")
+	r.Rule("D10-lookup-normalisation", "paths are normalised by prefix, never by a character set (a lookup finds the entry a listing shows)")
+	cutsetDiscipline(p, r, "D10-lookup-normalisation", imgPkg, "artifact/image/symlink", "artifact/image/unpack", "artifact/image/pathtree")
+	r.Rule("D11-unpacked-content", "the squashed unpack writes, for every regular entry, the bytes read for that entry")
+	freshContentPerEntry(p, r, "D11-unpacked-content")
 }
 
 // c04Materialise: (a) an entry's handler (handleFile/handleDir/handleSymlink — the code that
